@@ -49,6 +49,12 @@ func (m *mySQLUndoInsertExecutor) ExecuteOn(ctx context.Context, dbType types.DB
 		return nil
 	}
 
+	// a statement that changed no row leaves nothing to restore (and no row to build the undo
+	// statement from)
+	if m.sqlUndoLog.AfterImage == nil || len(m.sqlUndoLog.AfterImage.Rows) == 0 {
+		return nil
+	}
+
 	// build delete sql
 	undoSql, _ := m.buildUndoSQL(dbType)
 
